@@ -395,6 +395,19 @@ func scenarioC01(r *Run) {
 					r.Accepted++
 				}
 			}
+		case 4:
+			// the victim's PFCP port is closed for a moment (control plane restarting)
+			// while the agent answers it: the agent's next read on the connected socket
+			// fails with ECONNREFUSED; afterwards the victim goes on as before
+			if len(a.Rx) > 0 {
+				a.SendMsg(message.NewHeartbeatRequest(a.NextSeq(), ie.NewRecoveryTimeStamp(a.TS), nil))
+				r.W.Net.SetDown(a.Addr, true)
+				r.Sim.RunFor(time.Duration(5+r.Ch.Choose(60, "down-ms")) * time.Millisecond)
+				r.W.Net.SetDown(a.Addr, false)
+				r.Fault("peer-port-closed-icmp-unreachable")
+				r.Op("peer0's port was closed for a moment (ICMP port unreachable towards the agent)")
+				r.Skel("port-closed")
+			}
 		case 6:
 			if r.Conf.EnableHBTimer {
 				holdHB = !holdHB
@@ -460,11 +473,11 @@ func scenarioC01(r *Run) {
 		// (ii) liveness: same association and the bystander
 		if r.Ch.Choose(2, "probe") == 0 || k == n-1 {
 			if a.HeartbeatRetry() == nil && r.AgentAlive() {
-				r.Violate("C01", "wedged-same-association:"+skelOf(name), "a valid Heartbeat Request on the same association got no answer after three attempts following: %s\n%s", name, strings.Join(r.Sim.BlockedTable(), "\n"))
+				r.Violate("C01", "wedged-same-association:"+typeOf(name), "a valid Heartbeat Request on the same association got no answer after three attempts following: %s\n%s", name, strings.Join(r.Sim.BlockedTable(), "\n"))
 				break
 			}
 			if b.HeartbeatRetry() == nil && r.AgentAlive() {
-				r.Violate("C01", "wedged-other-association:"+skelOf(name), "a valid Heartbeat Request on another association got no answer after three attempts following: %s\n%s", name, strings.Join(r.Sim.BlockedTable(), "\n"))
+				r.Violate("C01", "wedged-other-association:"+typeOf(name), "a valid Heartbeat Request on another association got no answer after three attempts following: %s\n%s", name, strings.Join(r.Sim.BlockedTable(), "\n"))
 				break
 			}
 		}
@@ -479,6 +492,16 @@ func scenarioC01(r *Run) {
 		}
 	}
 	r.CheckNoPanics("C01")
+}
+
+// typeOf keeps the message type of a hostile datagram name only (a wedge is
+// usually the work of the history, not of the last datagram's mutations).
+func typeOf(name string) string {
+	f := strings.Fields(name)
+	if len(f) == 0 {
+		return "?"
+	}
+	return f[0]
 }
 
 // skelOf reduces a hostile datagram name to its kind (type + mutation kinds, no values).
